@@ -56,20 +56,30 @@ func (o Op) val() []byte {
 	return hx.UnHex(o.V)
 }
 
-// runImpl applies the history to a fresh OverlayDB over the given store content and returns what
-// GetWriteSet().ForEach enumerates (after every op when steps is set) and ChangeHash.
-func runImpl(base [][2]string, garbage, ops []Op, steps bool) (ws []kvp, hash []byte, perStep [][]kvp, length, size int) {
+// newStore: a LevelDBStore on goleveldb's in-memory storage holding the given content.
+func newStore(base [][2]string) *leveldbstore.LevelDBStore {
 	store := leveldbstore.NewMemLevelDBStore()
-	defer store.Close()
 	for _, e := range base {
 		if err := store.Put(hx.UnHex(e[0]), hx.UnHex(e[1])); err != nil {
 			panic(err)
 		}
 	}
+	return store
+}
+
+// runImpl applies the history to a fresh OverlayDB over the given store (which the overlay never
+// writes: CommitTo is not called) and returns what GetWriteSet().ForEach enumerates (after every
+// op when steps is set) and ChangeHash.
+func runImpl(store *leveldbstore.LevelDBStore, garbage, ops []Op, steps bool) (ws []kvp, hash []byte, perStep [][]kvp, length, size int) {
 	ov := overlaydb.NewOverlayDB(store)
+	nth := 0
 	apply := func(o Op) {
 		// the arguments may be modified by the caller after Put/Delete return
 		k := append([]byte{}, o.key()...)
+		// reads in between are not writes (every third operation is preceded by a Get of its key)
+		if nth++; nth%3 == 0 {
+			ov.Get(k)
+		}
 		if o.Del {
 			ov.Delete(k)
 		} else {
@@ -201,15 +211,15 @@ func coqKvs(l []kvp) string {
 // ---------- the oracle ----------
 
 // checkPair runs ops and variant and requires identical observables.
-func checkPair(c *hx.Ctx, in Input, ws []kvp, hash []byte) {
+func checkPair(c *hx.Ctx, store *leveldbstore.LevelDBStore, in Input, ws []kvp, hash []byte) {
 	c.Eval()
 	var ws2 []kvp
 	var hash2 []byte
-	base2 := in.Base
 	if in.Base2 != nil {
-		base2 = in.Base2
+		store = newStore(in.Base2)
+		defer store.Close()
 	}
-	p, msg := hx.Recover(func() { ws2, hash2, _, _, _ = runImpl(base2, in.Garbage, in.Variant, false) })
+	p, msg := hx.Recover(func() { ws2, hash2, _, _, _ = runImpl(store, in.Garbage, in.Variant, false) })
 	if p {
 		c.Fail("panic:overlay", "a put/delete history panicked", in, msg, "no panic")
 		return
@@ -228,10 +238,10 @@ func checkPair(c *hx.Ctx, in Input, ws []kvp, hash []byte) {
 }
 
 // checkHistory: the direct checks on one history; returns the observables.
-func checkHistory(c *hx.Ctx, in Input, steps bool) (ws []kvp, hash []byte, perStep [][]kvp, ok bool) {
+func checkHistory(c *hx.Ctx, store *leveldbstore.LevelDBStore, in Input, steps bool) (ws []kvp, hash []byte, perStep [][]kvp, ok bool) {
 	c.Eval()
 	var length, size int
-	p, msg := hx.Recover(func() { ws, hash, perStep, length, size = runImpl(in.Base, nil, in.Ops, steps) })
+	p, msg := hx.Recover(func() { ws, hash, perStep, length, size = runImpl(store, nil, in.Ops, steps) })
 	if p {
 		c.Fail("panic:overlay", "a put/delete history panicked", in, msg, "no panic")
 		return nil, nil, nil, false
